@@ -1,7 +1,7 @@
 (* PV.C14.Properties — the property theorems of C14 and nothing else.
    Quantities are integers in units of 1/scale (see Model.v); `set_lab r 0` forgets the index label. *)
 From Coq Require Import ZArith List Bool Permutation.
-From PV Require Import C14.Model C14.Proofs C14.ProofsDoseid C14.ProofsExpand C14.ProofsTad C14.ProofsMisc C14.ProofsTadWalk C14.ProofsExtend C14.ProofsExtend2.
+From PV Require Import C14.Model C14.Proofs C14.ProofsDoseid C14.ProofsExpand C14.ProofsTad C14.ProofsMisc C14.ProofsTadWalk C14.ProofsExtend C14.ProofsExtend2 C14.ProofsExtend3.
 Import ListNotations.
 Local Open Scope Z_scope.
 
@@ -208,4 +208,32 @@ Proof. exact tvc_exact_lemma. Qed.
 (* get_observations(keep_index=True) = the DV of the observation records under their index labels *)
 Theorem obs_keep_spec : forall d : dataset, obs_keep_impl d = obs_keep_walk (ds_sch d) (ds_rows d).
 Proof. exact obs_keep_spec_lemma. Qed.
+
+(* ---------------------------------------------------------------- round 4 *)
+(* expand_additional_doses with the DEFAULT flag=False (ADDL, II and EXPANDED columns dropped): for every
+   dataset with an ADDL/II pair and ADDL >= 0 its records are, up to order and the new index labels, exactly
+   the implied doses of every record (dose k at TIME + k*II, k = 0..ADDL) with every remaining field kept;
+   it is the flag=True frame with the three columns removed (same records, same order); the total
+   administered amount is sum (ADDL+1)*AMT; without an ADDL/II pair the model is returned as it is. *)
+Theorem expand_noflag_spec : forall (d : dataset) (l : list row),
+  has_addl (ds_sch d) && has_ii (ds_sch d) = true -> g_addl_nonneg (ds_rows d) = true ->
+  expand_noflag_impl d = Ok l ->
+  Permutation (map (fun r => set_lab r 0) l)
+              (map (fun p : row * bool => set_lab (drop_addl_ii (fst p)) 0) (flat_map implied (ds_rows d))).
+Proof. exact expand_noflag_spec_lemma. Qed.
+
+Theorem expand_noflag_flag : forall (d : dataset) (l : list row),
+  has_addl (ds_sch d) && has_ii (ds_sch d) = true -> expand_noflag_impl d = Ok l ->
+  exists lf, expand_impl d = Ok lf /\ l = map (fun p : row * bool => drop_addl_ii (fst p)) lf.
+Proof. exact expand_noflag_flag_lemma. Qed.
+
+Theorem expand_noflag_amount : forall (d : dataset) (l : list row),
+  has_addl (ds_sch d) && has_ii (ds_sch d) = true -> g_addl_nonneg (ds_rows d) = true ->
+  expand_noflag_impl d = Ok l ->
+  zsum (map r_amt l) = zsum (map (fun r => (r_addl r + 1) * r_amt r) (ds_rows d)).
+Proof. exact expand_noflag_amount_lemma. Qed.
+
+Theorem expand_noflag_noop : forall d : dataset,
+  has_addl (ds_sch d) && has_ii (ds_sch d) = false -> expand_noflag_impl d = Ok (ds_rows d).
+Proof. exact expand_noflag_noop_lemma. Qed.
 
